@@ -9,9 +9,10 @@ use rayon::prelude::*;
 use serde_json::json;
 use std::collections::BTreeMap;
 
-const NUMS: [(&str, u64); 6] = [
+const NUMS: [(&str, u64); 7] = [
     ("0", 0),
     ("00", 0),
+    ("000000000000000000000000000010", 10),
     ("5", 5),
     ("10", 10),
     ("18446744073709551614", 18446744073709551614),
